@@ -156,7 +156,15 @@ func VerifRunAllOps(ctrl Controller) int {
 	} else {
 		panic("history: the effective-date revert of transaction 3 failed: " + err.Error())
 	}
-	for _, o := range makeOps(false) {
+	burned := false
+	for i, o := range makeOps(false) {
+		if !burned && i >= 2 && !o.fails {
+			// a dry run in the middle of the history: it draws a log id from the sequence and rolls back, so the
+			// committed log ids have a gap (sequences are not transactional)
+			if r := o.run(ctrl, true, ""); r.err == nil {
+				burned = true
+			}
+		}
 		if r := o.run(ctrl, false, ""); r.err == nil {
 			ok++
 		}
